@@ -110,6 +110,11 @@ pub struct ForgeSpec {
     pub wrap_last: bool,
     /// make the last coefficient zero and encode it as "negative zero" (1 0000000 1)
     pub neg_zero_last: bool,
+    /// extreme structured s1 instead of a prescribed norm: (stride, phase, magnitude) puts
+    /// +-magnitude on every position i with i % stride == phase (far above the bound for large
+    /// magnitudes: narrow accumulators and early exits must still say "reject")
+    #[allow(dead_code)]
+    pub s1_pattern: Option<(usize, usize, i64)>,
 }
 
 /// Build (signature bytes, public-key bytes) with a prescribed squared norm: pick s2, pick s1 with
@@ -148,6 +153,24 @@ pub fn forge(f: &ForgeSpec) -> Option<(Vec<u8>, Vec<u8>)> {
     }
     if !ok {
         return None;
+    }
+    if let Some((stride, phase, mag)) = f.s1_pattern {
+        let stride = stride.max(1);
+        let mag = mag.clamp(0, 6144);
+        let s1: Vec<i64> = (0..n)
+            .map(|i| {
+                s = mix(s);
+                if i % stride == phase % stride {
+                    if s & 1 == 1 { mag } else { -mag }
+                } else {
+                    (s >> 8) as i64 % 3 - 1
+                }
+            })
+            .collect();
+        let num: Vec<i64> = c.iter().zip(s1.iter()).map(|(c, s1)| c - s1).collect();
+        let h = zq::ring_div(&num, &s2)?;
+        let body = codec::encode(&s2, blen)?;
+        return Some((keys::make_sig(n, &salt, &body), keys::encode_pk(&h)));
     }
     let n2: i64 = s2.iter().map(|x| x * x).sum();
     let mut budget = p.bound + f.delta - n2;
@@ -340,7 +363,7 @@ impl Sub for VerifyDiff {
             // the non-canonical last coefficient needs 512 spare bits: Falcon-1024 with a short s2
             let wrap_last = noncanon == 1;
             let (n, s2_sigma) = if wrap_last { (1024, 1.0) } else { (n, s2_sigma) };
-            let spec = ForgeSpec { n, msg: msg.clone(), seed, s2_sigma, delta, edge, s2_spike, wrap_last, neg_zero_last: noncanon == 2 };
+            let spec = ForgeSpec { n, msg: msg.clone(), seed, s2_sigma, delta, edge, s2_spike, wrap_last, neg_zero_last: noncanon == 2, s1_pattern: None };
             forge(&spec).map(|(sig, pk)| VerifyCase { n, msg: Hex(msg), sig: Hex(sig), pk: Hex(pk) })
         });
         // 4. malformed / arbitrary bodies under an honest key
@@ -370,7 +393,14 @@ impl Sub for VerifyDiff {
             let body = codec::encode(&s2, p.sig_len - 41).unwrap_or_else(|| vec![0u8; p.sig_len - 41]);
             VerifyCase { n, msg: Hex(msg), sig: Hex(wrap_body(n, seed, &body)), pk: Hex(keys::encode_pk(&h)) }
         });
-        prop_oneof![3 => c1, 30 => c2, 8 => c3, 6 => c4, 1 => c5].boxed()
+        // 6. extreme structured s1: +-6144 (or another large magnitude) on every position of one
+        // residue class modulo a small stride, tiny elsewhere - squared norms up to 3.9e10
+        let c6 = (prop_oneof![Just(512usize), Just(1024usize)], gen::message_strategy(), any::<u64>(), prop_oneof![Just(1usize), Just(2), Just(4), Just(8), Just(16), Just(3)], 0usize..16, prop_oneof![3 => Just(6144i64), 1 => Just(6143i64), 1 => Just(5793i64), 1 => 2000i64..6144])
+            .prop_filter_map("forged-key construction failed", |(n, msg, seed, stride, phase, mag)| {
+                let spec = ForgeSpec { n, msg: msg.clone(), seed, s2_sigma: 1.0, delta: 0, edge: 0, s2_spike: 0, wrap_last: false, neg_zero_last: false, s1_pattern: Some((stride, phase, mag)) };
+                forge(&spec).map(|(sig, pk)| VerifyCase { n, msg: Hex(msg), sig: Hex(sig), pk: Hex(pk) })
+            });
+        prop_oneof![3 => c1, 30 => c2, 8 => c3, 6 => c4, 1 => c5, 2 => c6].boxed()
     }
 
     fn check(&self, c: &VerifyCase, st: &mut Stats) -> Result<(), Fail> {
@@ -457,7 +487,7 @@ impl Sub for VerifyDiff {
 pub struct Unused;
 
 const META: Meta = Meta {
-    rule: "proptest triples (msg, signature bytes, public-key bytes) that both decoders accept: (1) honest signatures under native keys and under PQClean keys imported through from_bytes, signer randomness from a seeded ChaCha through the SignRng hook; (2) one-step mutations of honest triples (message bit / appended byte, salt bit, one s2 coefficient +-1/+-128 re-encoded, one public-key coefficient, another key, one body bit); (3) forged-key construction: choose s2 (Gaussian sigma 1/30/165, optional coefficient at +-2047, 2048, +-12159, 6144, -6145) and s1 with ||(s1,s2)||^2 = floor(beta^2)+delta exactly, delta in {0,+-1,+-2, small, large}, optional s1 coefficient at +-6144, and set h = (c - s1)/s2; (4) grammar-built malformed bodies under an honest key; forged Falcon-1024 triples whose last coefficient carries 512 extra unary zeros (a 16-bit accumulator wraps it back to the same value, the specification rejects the run) or is a zero encoded as negative zero; (5) degenerate keys h = 0, 1, -1, random with s2 = 0. Oracle: refimpl SpecVerify (Algorithm 16 on own SHAKE-256, own codec, own Z_q ring arithmetic); PQClean's verifier must agree with the model wherever the case is expressible in its format (counted). Non-trivial = the specification rejects, or |norm - bound| <= 2; distinct by hash of the triple.",
+    rule: "proptest triples (msg, signature bytes, public-key bytes) that both decoders accept: (1) honest signatures under native keys and under PQClean keys imported through from_bytes, signer randomness from a seeded ChaCha through the SignRng hook; (2) one-step mutations of honest triples (message bit / appended byte, salt bit, one s2 coefficient +-1/+-128 re-encoded, one public-key coefficient, another key, one body bit); (3) forged-key construction: choose s2 (Gaussian sigma 1/30/165, optional coefficient at +-2047, 2048, +-12159, 6144, -6145) and s1 with ||(s1,s2)||^2 = floor(beta^2)+delta exactly, delta in {0,+-1,+-2, small, large}, optional s1 coefficient at +-6144, and set h = (c - s1)/s2; (4) grammar-built malformed bodies under an honest key; forged Falcon-1024 triples whose last coefficient carries 512 extra unary zeros (a 16-bit accumulator wraps it back to the same value, the specification rejects the run) or is a zero encoded as negative zero; (5) degenerate keys h = 0, 1, -1, random with s2 = 0; (6) forged triples with an extreme structured s1: +-6144 (or another large magnitude) on every position of one residue class modulo 1, 2, 3, 4, 8 or 16 and tiny values elsewhere (squared norms up to 3.9e10). Oracle: refimpl SpecVerify (Algorithm 16 on own SHAKE-256, own codec, own Z_q ring arithmetic); PQClean's verifier must agree with the model wherever the case is expressible in its format (counted). Non-trivial = the specification rejects, or |norm - bound| <= 2; distinct by hash of the triple.",
     assumptions: &[
         "oracle: refimpl::verify (Algorithm 16), cross-checked against PQClean on every convertible well-formed case of the run; a disagreement between the two oracles is a harness error (exit 2), not a violation",
         "triples that Signature::from_bytes / PublicKey::from_bytes reject are outside the property's quantifier and only counted",
